@@ -124,6 +124,10 @@ def gen(rng, tier, idx):
                 g.mark(t, "pop", ty, mst[ty].pop())
         g.emit(t, "OHe", "now", 0)
     g.finish(conformant=True)
+    if knobs.get("tmpdir") and rng.derive("sibling-rmdir").chance(12):
+        # another process of the loom finishes while this one starts: the n-th directory this process creates finds that the
+        # (still empty) parent it has just created is gone again
+        knobs["sibling_rmdir_nth"] = rng.derive("sibling-rmdir-at").randint(2, 5)
     return {"variant": variant, "plan": g.plan.to_case(), "tids": g.tids, "boundaries": g.boundaries, "cpus": cpus}
 
 
